@@ -148,6 +148,93 @@ def run(oc, tier, seed, model_available, escalate):
                                                         "corrupted": (msg + pt).hex(), "positions": []},
                                               "impl": {"parity": par.hex(), "check": ok}, "what": "%s: check returned %s, required %s" % (desc, ok, want)})
     oc.count("directed truncated/shifted parity cases", nd)
+    # ---- directed: STRUCTURED words. (a) a non-null message that is itself a codeword of the code with the same number of parity symbols
+    # (its parity is all null): the pair must be accepted, and rejected after any change of 1..n-k symbols. (b) a valid word plus a corruption
+    # pattern that is itself a codeword of a WEAKER geometry of the same codec (the generator polynomial of the code with n-k' < n-k parity
+    # symbols, weight <= n-k'+1 <= n-k, at a random shift): a check that tests too few roots accepts it
+    ns = 0
+    for it in range(60 if tier == "quick" else 1200):
+        algo = rng.choice([1, 2, 3, 4])
+        n = rng.choice([12, 20, 27, 40, 255]) if it % 10 else 255
+        nsym = rng.randint(2, max(2, min(n - 2, 12)))
+        k = n - nsym
+        percall = rng.random() < 0.5
+        k0 = rng.randint(k, n - 1) if percall else k       # constructor geometry at least as weak as the call's
+        if percall and it % 3 == 0:
+            k0 = 1 if k > 1 else k0
+        man = cu.manager(algo, n, k0)
+        kw = {"k": k} if (percall and k0 != k) else {}
+        karg = k if kw else 0
+        with common.quiet():
+            if it % 2 == 0 and k > nsym:
+                # (a) message = u ++ parity(u) over the geometry (k, k-nsym): a multiple of the generator polynomial
+                u = bytes(rng.randrange(256) for _ in range(k - nsym))
+                if not any(u):
+                    u = bytes([1]) + u[1:]
+                inner = cu.eccman().ECCMan(k, k - nsym, algo=algo)
+                msg = u + bytes(inner.encode(u))
+                man = cu.eccman().ECCMan(n, k0, algo=algo)
+                kind = "message that is itself a codeword"
+            else:
+                msg = cu.gen_message(rng, k)
+                if len(msg) < k:
+                    msg = bytes(k - len(msg)) + msg
+                kind = "corruption that is a codeword of a weaker geometry"
+            par = bytes(man.encode(msg, **kw))
+            ok0 = bool(man.check(bytearray(msg), bytearray(par), **kw))
+        oc.oracle_cases += 1
+        ns += 1
+        add("chk %d %d %d %d %s %s" % (algo, n, k0, karg, hx(msg), hx(par)), "1" if ok0 else "0")
+        bad = []
+        if kind.startswith("message") and any(par):
+            oc.count("structured: inner codeword did not give null parity (geometry mismatch) - skipped")
+            continue
+        if not ok0:
+            bad.append("check rejects a message paired with its own parity (%s)" % kind)
+        word = bytearray(msg + par)
+        if kind.startswith("message"):
+            pos = rng.sample(range(len(word)), rng.randint(1, nsym))
+            cw = cu.corrupt(rng, word, pos)
+        else:
+            k2 = rng.randint(k + 1, n - 1) if k + 1 <= n - 1 else None
+            if percall and k0 > k:
+                k2 = k0                                          # the constructor's own (weaker) geometry
+            if k2 is None:
+                continue
+            with common.quiet():
+                weak = cu.eccman().ECCMan(n, k2, algo=algo)
+                unit = bytes(k2 - 1) + b"\x01"
+                g = unit + bytes(weak.encode(unit))              # coefficients of x^(n-k2) + ... = the generator polynomial, right-aligned
+                man = cu.eccman().ECCMan(n, k0, algo=algo)
+            g = g.lstrip(b"\x00")
+            shift = rng.randint(0, len(word) - len(g))
+            scale = rng.randrange(1, 256)
+            with common.quiet():
+                if algo == 4:
+                    cu.eccman().reedsolo.init_tables(0x187)
+                else:
+                    cu.eccman().reedsolo.init_tables(generator=3, prim=0x11b)
+                gs = bytes(cu.eccman().reedsolo.gf_mul(x, scale) for x in g)
+                man = cu.eccman().ECCMan(n, k0, algo=algo)
+            cw = bytearray(word)
+            pos = []
+            for j_, x in enumerate(gs):
+                cw[len(word) - len(gs) - shift + j_] ^= x
+                if x:
+                    pos.append(len(word) - len(gs) - shift + j_)
+        m2, p2 = bytes(cw[:len(msg)]), bytes(cw[len(msg):])
+        with common.quiet():
+            ok1 = bool(man.check(bytearray(m2), bytearray(p2), **kw))
+        oc.oracle_cases += 1
+        add("chk %d %d %d %d %s %s" % (algo, n, k0, karg, hx(m2), hx(p2)), "1" if ok1 else "0")
+        oc.distinct.add(lines[-1])
+        if ok1 and 1 <= len(pos) <= nsym:
+            bad.append("check accepts a word at distance %d <= n-k=%d from a codeword (%s)" % (len(pos), nsym, kind))
+        for b in bad:
+            oc.violations.append({"input": {"algo": algo, "n": n, "k_ctor": k0, "k_call": k if kw else None, "msg": msg.hex(),
+                                            "corrupted": bytes(cw).hex(), "positions": pos}, "impl": {"parity": par.hex()}, "what": b})
+        oc.count("structured: " + kind)
+    oc.count("directed structured words", ns)
     if tier == "thorough":
         # exhaustive single and double symbol errors on small codes
         cnt = 0
